@@ -30,7 +30,10 @@ Pool == {Req("Lit01", "lit01", "f_lit01", "c_01"), Req("LitFT", "litFT", "f_litF
          Req("ModelA", "modelA", "f_modelA", "c_modelA"), Req("ModelB", "modelB", "f_modelB", "c_modelB"),
          Req("NT1", "int", "f_NT1", "c_int"), Req("NT2", "int", "f_NT2", "c_int"), Req("int", "int", "f_int", "c_int"),
          Req("Ann0", "int", "f_Ann0", "c_int"), Req("AnnF", "int", "f_AnnF", "c_int"),
-         Req("NoProvider", "none", "f_nop", "c_nop"), Req("Rec", "rec", "f_rec", "c_rec")}
+         Req("NoProvider", "none", "f_nop", "c_nop"), Req("Rec", "rec", "f_rec", "c_rec"),
+         \* one union type dumped with objects of two runtime classes (class dispatch), one model pair converted with and without recipe
+         Req("DumpPet", "dump_pet", "f_u_animal_p", "c_u_animal_p"), Req("DumpPetDog", "dump_petdog", "f_u_animal_pd", "c_u_animal_pd"),
+         Req("ConvPlain", "conv_plain", "f_conv_plain", "c_conv_plain"), Req("ConvRecipe", "conv_recipe", "f_conv_recipe", "c_conv_recipe")}
 \* retort constructions: the base retort, base.replace(strict_coercion=False), base.extend(recipe=[loader(int, ..)])
 Retorts == {"base", "replaced", "extended"}
 \* the behaviour a construction prescribes for a request (history-free by definition)
